@@ -43,7 +43,8 @@ class MPBFixedContext__round_at(Contract):
     properties = ['C01']
     binds = {'result._ctx': 'self'}
     split = ['x', 'exact', 'n']
-    options = {'light_theory': True, 'noax_first_ms': 8000}
+    # 4 cases x ~450 s: thorough tier (the quick command must stay well under the harness limit of 900 s)
+    options = {'light_theory': True, 'noax_first_ms': 8000, 'symbolic_tier': 'thorough'}
 
     def pre(self, x, n, exact):
         return {'deterministic': self.num_randbits is not None and self.num_randbits == 0,
